@@ -1,6 +1,7 @@
 (* Props/C18.v — hibernation suspends exactly the demes that did not sprout.  Every accepted run of the HMS machine. *)
 From Coq Require Import List Bool Arith ZArith.
 From HV Require Import Ord Sprout Tree TreeLemmas TreeInv TreeRun.
+From HV Require Import DriverPrim Driver DriverFacts GenDriver GenEquivDriver DriverCode.
 Import ListNotations.
 
 (* last_round s = (participants, sprouted): the demes that existed, were active and non-leaf when the most recent round
@@ -80,3 +81,11 @@ Print Assumptions C18_scheduled_deme_iterates.
 
 Example C18_example : exists s, ex_final = Some s /\ map d_hib (demes s) = [true; false; false] /\ last_round s = ([0], []).
 Proof. vm_compute. eexists. split; [reflexivity|]. split; reflexivity. Qed.
+
+(* ---------------------------------------------------------------- the same for the TRANSLATED code.
+   Gen/GenDriver.v is regenerated from /repo's current pyhms/tree.py (run, run_step, run_metaepoch, run_sprout, _do_sprout, active_demes,
+   active_non_leaves) and the run_metaepoch methods of EADeme, DEDeme, SHADEDeme, CMADeme, LocalDeme, LHSDeme, SobolDeme on every check;
+   `code_moment c fuel n evs s`: s is a state the translated run() passes through on the event stream evs. *)
+Theorem C18_translated_code_hibernation c fuel n evs s : 1 <= height c -> code_moment c fuel n evs s -> HIB c s.
+Proof. exact (code_moment_hibernation c fuel n evs s). Qed.
+Print Assumptions C18_translated_code_hibernation.
